@@ -25,19 +25,20 @@ func outRoot() string {
 
 // PropConfig is /verif/props/<id>.json: what a property's check verifies.
 type PropConfig struct {
-	ID          string   `json:"id"`
-	Packages    []string `json:"packages"`
-	Specs       []string `json:"specs"`     // contract files under /verif/contracts
-	Functions   []string `json:"functions"` // contract keys verified in both tiers
-	Thorough    []string `json:"thorough_functions"`
-	Lemmas      []string `json:"lemmas"`
-	ThoroughLem []string `json:"thorough_lemmas"`
-	TrustedBase []string `json:"trusted_base"`
-	NotCovered  string   `json:"not_covered"`
-	Bounded     []string `json:"bounded"`
+	ID          string     `json:"id"`
+	Packages    []string   `json:"packages"`
+	Specs       []string   `json:"specs"`     // contract files under /verif/contracts
+	Functions   []string   `json:"functions"` // contract keys verified in both tiers
+	Thorough    []string   `json:"thorough_functions"`
+	Lemmas      []string   `json:"lemmas"`
+	ThoroughLem []string   `json:"thorough_lemmas"`
+	TrustedBase []string   `json:"trusted_base"`
+	NotCovered  string     `json:"not_covered"`
+	Bounded     []string   `json:"bounded"`
 	Gno         *GnoTarget `json:"gno"`
-	QuickS      int      `json:"quick_timeout_s"`
-	ThoroughS   int      `json:"thorough_timeout_s"`
+	Parts       []string   `json:"parts"` // further configs (props/<name>.json) verified as part of this property
+	QuickS      int        `json:"quick_timeout_s"`
+	ThoroughS   int        `json:"thorough_timeout_s"`
 }
 
 type KnownFinding struct {
@@ -131,93 +132,119 @@ func cmdCheck(argv []string) int {
 		fmt.Fprintln(os.Stderr, "known_findings.json:", err)
 		return 2
 	}
-	e := newEngine(*repo)
+	var openKnown []*KnownFinding
 	for _, k := range known {
 		if k.Property == id && k.open() {
-			e.known = append(e.known, k)
+			openKnown = append(openKnown, k)
 		}
 	}
 	var viols []violation
 	var vcs []*VC
 	var frs []*FuncResult
-	pkgs := cfg.Packages
-	var loadErr error
-	if cfg.Gno != nil {
-		// Gno target: extract the .gno package from /repo's working tree on every run
-		tmp, pat, err := prepareGno(*repo, *cfg.Gno, nil)
-		if tmp != "" {
-			defer os.RemoveAll(tmp)
+	var cleanups []func()
+	defer func() {
+		for _, f := range cleanups {
+			f()
+		}
+	}()
+	// a property may be verified in several parts (e.g. a Gno package through the Gno
+	// front end plus Go packages of /repo): each part gets its own engine
+	cfgs := []PropConfig{cfg}
+	for _, pn := range cfg.Parts {
+		var pc PropConfig
+		pb, err := os.ReadFile(filepath.Join(verifRoot, "props", pn+".json"))
+		if err == nil {
+			err = json.Unmarshal(pb, &pc)
 		}
 		if err != nil {
-			loadErr = fmt.Errorf("gno front end: %v", err)
+			fmt.Fprintln(os.Stderr, "bad part config "+pn+":", err)
+			return 2
 		}
-		e.repo = tmp
-		pkgs = []string{pat}
+		cfgs = append(cfgs, pc)
+		cfg.TrustedBase = append(cfg.TrustedBase, pc.TrustedBase...)
 	}
-	if loadErr == nil {
-		loadErr = e.load(pkgs)
-	}
-	if loadErr == nil {
-		for _, s := range cfg.Specs {
-			if err := e.contracts.loadContractFile(filepath.Join(verifRoot, "contracts", s), ""); err != nil {
-				loadErr = err
-				break
+	for _, cfg := range cfgs {
+		e := newEngine(*repo)
+		e.known = openKnown
+		pkgs := cfg.Packages
+		var loadErr error
+		if cfg.Gno != nil {
+			// Gno target: extract the .gno package from /repo's working tree on every run
+			tmp, pat, err := prepareGno(*repo, *cfg.Gno, nil)
+			if tmp != "" {
+				cleanups = append(cleanups, func() { os.RemoveAll(tmp) })
 			}
-		}
-	}
-	if loadErr == nil {
-		loadErr = e.contracts.parseAll()
-	}
-	if loadErr != nil {
-		// the tree does not load (does not compile with -tags verif, or a contract file is broken)
-		fmt.Fprintln(os.Stderr, "load error:", loadErr)
-		viols = append(viols, violation{reason: "load: " + loadErr.Error(), noIn: true})
-	} else {
-		funcs := append([]string{}, cfg.Functions...)
-		lemmas := append([]string{}, cfg.Lemmas...)
-		if *tier == "thorough" {
-			funcs = append(funcs, cfg.Thorough...)
-			lemmas = append(lemmas, cfg.ThoroughLem...)
-		}
-		for _, k := range funcs {
-			c := e.contracts.Funcs[k]
-			if c == nil {
-				viols = append(viols, violation{reason: "binding: no contract named " + k + " (contract file missing or renamed)", noIn: true})
-				continue
+			if err != nil {
+				loadErr = fmt.Errorf("gno front end: %v", err)
 			}
-			fr := e.verifyContract(c)
-			frs = append(frs, fr)
-			vcs = append(vcs, fr.VCs...)
-			if fr.Err != "" {
-				viols = append(viols, violation{reason: fr.Err, noIn: true})
-			}
+			e.repo = tmp
+			pkgs = []string{pat}
 		}
-		for _, ln := range lemmas {
-			found := false
-			for _, l := range e.contracts.Lemmas {
-				if l.Pkg+".lemma:"+l.Name == ln {
-					vcs = append(vcs, e.verifyLemma(l))
-					found = true
+		if loadErr == nil {
+			loadErr = e.load(pkgs)
+		}
+		if loadErr == nil {
+			for _, s := range cfg.Specs {
+				if err := e.contracts.loadContractFile(filepath.Join(verifRoot, "contracts", s), ""); err != nil {
+					loadErr = err
+					break
 				}
 			}
-			if !found {
-				viols = append(viols, violation{reason: "binding: no lemma named " + ln, noIn: true})
-			}
 		}
-		// lemmas the verified functions relied on are discharged in the same run
-		done := map[*Lemma]bool{}
-		for changed := true; changed; {
-			changed = false
-			for _, l := range e.contracts.Lemmas {
-				if e.usedLemmas[l] && !done[l] {
-					done[l] = true
-					changed = true
-					already := false
-					for _, ln := range lemmas {
-						already = already || l.Pkg+".lemma:"+l.Name == ln
-					}
-					if !already {
+		if loadErr == nil {
+			loadErr = e.contracts.parseAll()
+		}
+		if loadErr != nil {
+			// the tree does not load (does not compile with -tags verif, or a contract file is broken)
+			fmt.Fprintln(os.Stderr, "load error:", loadErr)
+			viols = append(viols, violation{reason: "load: " + loadErr.Error(), noIn: true})
+		} else {
+			funcs := append([]string{}, cfg.Functions...)
+			lemmas := append([]string{}, cfg.Lemmas...)
+			if *tier == "thorough" {
+				funcs = append(funcs, cfg.Thorough...)
+				lemmas = append(lemmas, cfg.ThoroughLem...)
+			}
+			for _, k := range funcs {
+				c := e.contracts.Funcs[k]
+				if c == nil {
+					viols = append(viols, violation{reason: "binding: no contract named " + k + " (contract file missing or renamed)", noIn: true})
+					continue
+				}
+				fr := e.verifyContract(c)
+				frs = append(frs, fr)
+				vcs = append(vcs, fr.VCs...)
+				if fr.Err != "" {
+					viols = append(viols, violation{reason: fr.Err, noIn: true})
+				}
+			}
+			for _, ln := range lemmas {
+				found := false
+				for _, l := range e.contracts.Lemmas {
+					if l.Pkg+".lemma:"+l.Name == ln {
 						vcs = append(vcs, e.verifyLemma(l))
+						found = true
+					}
+				}
+				if !found {
+					viols = append(viols, violation{reason: "binding: no lemma named " + ln, noIn: true})
+				}
+			}
+			// lemmas the verified functions relied on are discharged in the same run
+			done := map[*Lemma]bool{}
+			for changed := true; changed; {
+				changed = false
+				for _, l := range e.contracts.Lemmas {
+					if e.usedLemmas[l] && !done[l] {
+						done[l] = true
+						changed = true
+						already := false
+						for _, ln := range lemmas {
+							already = already || l.Pkg+".lemma:"+l.Name == ln
+						}
+						if !already {
+							vcs = append(vcs, e.verifyLemma(l))
+						}
 					}
 				}
 			}
@@ -273,7 +300,7 @@ func cmdCheck(argv []string) int {
 	// known findings: confirm each witness still fails on the real code
 	var knownLines []string
 	var knownEv []map[string]any
-	for _, k := range e.known {
+	for _, k := range openKnown {
 		o := knownHit[k.ID]
 		st := "obligation-not-generated"
 		if o != nil {
@@ -312,7 +339,7 @@ func cmdCheck(argv []string) int {
 			continue // further failed obligations of the same function are listed without their own line
 		}
 		tried[g]++
-		v.replay, v.noIn = writeReplay(e, id, rdir, v, *repo)
+		v.replay, v.noIn = writeReplay(nil, id, rdir, v, *repo)
 		if !v.noIn {
 			confirmed[g] = true
 		}
@@ -428,6 +455,9 @@ type replayFile struct {
 // writeReplay stores what is known about a failed obligation; when the solver
 // produced a model over scalar inputs, the counterexample is replayed on the real code.
 func writeReplay(e *Engine, id, rdir string, v *violation, repo string) (string, bool) {
+	if e == nil && v.vc != nil {
+		e = v.vc.eng // the engine of the part this obligation belongs to
+	}
 	rf := replayFile{Property: id}
 	name := "load"
 	if v.obl != nil {
